@@ -171,9 +171,8 @@ Definition judge_tri (c : tri_case) : Z :=
   end.
 
 (* ------------------------------------------------------------------ diagonal
-   case: (offset, axis1, axis2, input, result); axis1, axis2 denote different axes, in range.
-   clauses: 15 diagonal_nonsquare (extents of the two axes differ), 16 diagonal_negative_axis,
-   12 input is not a COO *)
+   case: (offset, axis1, axis2, input, result); axis1, axis2 in range (equal axes: NumPy raises).
+   clauses: 15 diagonal_nonsquare (extents of the two axes differ), 12 input is not a COO *)
 Definition diag_case := (Z * Z * Z * sarr * sarr)%type.
 
 Definition judge_diag (c : diag_case) : Z :=
@@ -184,17 +183,15 @@ Definition judge_diag (c : diag_case) : Z :=
     let nd := Z.of_nat (length (c_shape x)) in
     match np_norm_axis axis1 nd, np_norm_axis axis2 nd with
     | Some a1, Some a2 =>
-      if (a1 =? a2)%nat then 9 else
-      let spec := np_diagonal offset a1 a2 (darr_of x) in
       let m := coo_diagonal_src Z Z.eqb 0 Z.add x offset axis1 axis2 in
+      let model_ok := if is_coo inp then model_coo_ok m r else true in
+      if (a1 =? a2)%nat then decide (is_coo inp) 12 model_ok None (c_fill x) r else
       let clause :=
         if negb (is_coo inp) then 12
-        else if negb (diagonal_nonsquare (c_shape x) axis1 axis2) then 15
-        else if negb (diagonal_negative_axis axis1 axis2) then 16
+        else if negb (diagonal_nonsquare (c_shape x) a1 a2) then 15
         else 0 in
-      let model_ok := if is_coo inp then model_coo_ok m r else true in
       (* the Spec's fill is the input's fill (np.diagonal keeps every value) *)
-      decide (clause =? 0) clause model_ok (Some spec) (c_fill x) r
+      decide (clause =? 0) clause model_ok (Some (np_diagonal offset a1 a2 (darr_of x))) (c_fill x) r
     | _, _ => 9
     end
   end.
